@@ -259,13 +259,15 @@ def rule_format(ctx):
     ctx.rule("C15.format", "T3", "to_json_dict and from_json_dict agree on a time format with microseconds and a width-stable year")
     w = ctx.func(HCOMMON, "FileInfo.to_json_dict")
     r = ctx.func(HCOMMON, "FileInfo.from_json_dict")
+    from ..normalize import helper_closure
     writers = []
-    for c in calls_in(w.node):
+    for c in [c_ for n_ in helper_closure(w) for c_ in calls_in(n_)]:
         k = _time_writer(c)
         if k:
             writers.append((c, k))
     readers = []
-    for c in calls_in(r.node):
+    rnodes = helper_closure(r)
+    for c in [c_ for n_ in rnodes for c_ in calls_in(n_)]:
         d = dotted(c.func) or ""
         if d.endswith("strptime") and len(c.args) == 2 and isinstance(c.args[1], ast.Constant):
             readers.append((c, ("strptime", c.args[1].value)))
@@ -284,7 +286,15 @@ def rule_format(ctx):
                "non-temporal files) to datetime.max, to the microsecond", node=c, func=w)
     # reader used for both times and the indices 0/1 are read
     fact = [norm(c) for c, _ in readers]
-    ctx.ob("FileInfo.from_json_dict.fields", len(readers) >= 1 and all("times" in norm(c) for c, _ in readers),
+    # what is parsed is json_dict['times'][i] - directly, or as the argument a helper receives
+    def parses_times(c):
+        if "times" in norm(c):
+            return True
+        own = [n_ for n_ in rnodes[1:] if any(c is x for x in ast.walk(n_))]
+        if own and c.args and isinstance(c.args[0], ast.Name):
+            return any("times" in norm(k) for k in calls_in(rnodes[0], own[0].name))
+        return False
+    ctx.ob("FileInfo.from_json_dict.fields", len(readers) >= 1 and all(parses_times(c) for c, _ in readers),
            "reader calls: %s" % fact, "parses json_dict['times'][i]", node=readers[0][0], func=r)
 
 
@@ -346,9 +356,25 @@ def rule_reset(ctx, rule=None):
     g = ctx.func(FILESET, "FileSet.time_coverage.setter")
     gflow = Flow(g)
     cfg = gflow.cfg
-    resets = [st for st in gflow.stmts if isinstance(st, ast.Assign) and norm(st.targets[0]) == "self.info_cache"
+
+    def direct_resets(flow_):
+        r_ = [st for st in flow_.stmts if isinstance(st, ast.Assign) and norm(st.targets[0]) == "self.info_cache"
               and isinstance(st.value, (ast.Dict, ast.Call)) and norm(st.value) in ("{}", "dict()")]
-    resets += [st for st in gflow.stmts if isinstance(st, ast.Expr) and norm(st.value) == "self.info_cache.clear()"]
+        r_ += [st for st in flow_.stmts if isinstance(st, ast.Expr) and norm(st.value) == "self.info_cache.clear()"]
+        return r_
+    resets = direct_resets(gflow)
+    # a call of a method of the class that resets the cache on every one of its own normal paths counts as a reset (wrapper summary)
+    for st in gflow.stmts:
+        if isinstance(st, ast.Expr) and isinstance(st.value, ast.Call) and isinstance(st.value.func, ast.Attribute) \
+                and isinstance(st.value.func.value, ast.Name) and st.value.func.value.id == "self":
+            try:
+                h = ctx.func(FILESET, "FileSet." + st.value.func.attr)
+            except AnalysisError:
+                continue
+            hflow = Flow(h)
+            hr = set(n for x in direct_resets(hflow) for n in hflow.cfg.nodes(x))
+            if hr and EXIT not in hflow.cfg.reach([ENTRY], avoid=hr):
+                resets.append(st)
     rn = set(n for st in resets for n in cfg.nodes(st))
     leaks = EXIT in cfg.reach([ENTRY], avoid=rn)
     ctx.ob("FileSet.time_coverage.setter.reset", bool(rn) and not leaks,
